@@ -298,7 +298,8 @@ def c04(tier, seed):
 def c05_specs(tier, seed, edits, tag):
     S = []
     th = tier == "thorough"
-    shapes = [(0, 0, 0), (1, 0, 2), (0, 1, 1)] + ([(1, 1, 2), (2, 1, 0), (1, 2, 3), (0, 2, 2)] if th else [])
+    # (2, 1) does not close within 1500 s and is therefore not registered
+    shapes = [(0, 0, 0), (1, 0, 2), (0, 1, 1)] + ([(1, 1, 2), (1, 2, 3), (0, 2, 2)] if th else [])
     for (L, M, H) in shapes:
         for E in edits:
             segs = [0]
